@@ -72,6 +72,9 @@ def c06():
 
 def c01():
     return [
+        # a small chunk followed by a chunk larger than any plausible write-buffer threshold
+        # (65 536 rows), then small ones again: order and offsets across buffering boundaries
+        [{"op": "bigcreate", "file": "f0", "path": "/big", "nbins": [300, 200], "splits": [0.0001, 0.0001, 0.7, 0.7001]}],
         [create("f0", "/", L_ONE, [(0, 0, 9)], form="df")],
         [create("f0", "/a", L_FIXED, [], chunks=[], form="iter")],
         [create("f0", "/a", L_FIXED, PX5, chunks=[0, 3, 0, 0, 4, 0], form="iterdict")],
@@ -87,10 +90,19 @@ def c07():
     m = lambda ins, buf=10: {"op": "merge", "file": "f2", "path": "/m", "mode": "a", "mergebuf": buf,
                              "inputs": [{"file": f, "path": p} for f, p in ins], "columns": None, "agg": None,
                              "fault": None}
+    # more inputs than any internal fan-in threshold (unordered creation uses 200), with an
+    # aggregate that is not associative over batches
+    tiny = lay(["t"], [[0, 1, 2, 3]])
+    # (5 inputs per file: every operation re-verifies all collections of the file it touches)
+    many = [create("g%d" % (k // 5), "/i%d" % k, tiny, [(k % 3, 2, 1 + k % 4), (0, k % 3, 2)] if k % 3 else [(0, 0, 5)],
+                   form="df") for k in range(205)]
+    mm = m([("g%d" % (k // 5), "/i%d" % k) for k in range(205)], 50)
+    mm["agg"] = {"count": "count"}
     return [
         [e1, e2, m([("f0", "/e1"), ("f0", "/e2")])],
         [e1, m([("f0", "/e1")], 1)],
         [big1, big2, m([("f0", "/b1"), ("f1", "/b2")])],
+        many + [mm],
     ]
 
 
